@@ -268,3 +268,53 @@ _lookup_harnesses = harnesses
 
 def harnesses(tier):   # noqa: F811
     return _lookup_harnesses(tier) + [CanonicalizePreservesValue()]
+
+
+# --------------------------------------------------------------------------------------------------------------
+import re as _re
+
+
+class StaticDeterminism(Harness):
+    """Not a solver query: the `deterministic` clause of C07 rests on name resolution being a pure function of the
+    registry and on the registry being built in a fixed order.  std's HashMap/HashSet iterate in a per-process random
+    order, so any rink-core code that iterates one is flagged (membership tests and insertion are fine)."""
+    name = 'static.no_hash_iteration_order'
+    props = ('C07',)
+    describe = 'scan of the regenerated MIR: no iteration over std HashMap / HashSet anywhere in rink-core'
+    expect_classes = ['return']
+    _concrete = None
+
+    def build(self, ex, I):
+        return [], {}
+
+    def entry(self, ex, args, ctx):
+        pat = _re.compile(r'(hash_map|hash_set)::(Iter|IterMut|IntoIter|Keys|Values|ValuesMut|Drain|IntoKeys|IntoValues)\b|'
+                          r'Hash(Map|Set)::<[^(]*>::(iter|iter_mut|into_iter|keys|values|values_mut|drain|into_keys|into_values|retain)\b|'
+                          r'<(&(mut )?)?(std::collections::)?Hash(Map|Set)<.*> as IntoIterator>::into_iter')
+        bad = []
+        for f in ex.prog.order:
+            for ln in f.lines:
+                if 'Hash' in ln or 'hash_' in ln:
+                    if pat.search(ln):
+                        bad.append('%s: %s' % (f.name[:70], ln.strip()[:140]))
+                        break
+        ctx['bad'] = bad
+        return Tup([])
+
+    def post(self, ex, ctx, outcome):
+        return [('no code in rink-core iterates a HashMap/HashSet %s' % ctx['bad'][:2], not ctx['bad'])]
+
+    def native(self, inputs, label):
+        return [{'mode': 'lookup', 'name': n} for n in ('dat', 'dau', 'yoctodecillion', 'km')]
+
+    def judge(self, inputs, label, obs):
+        # a static fact about the source: it is the violation; the native part only documents the ambiguous names
+        return True, 'hash-order dependent iteration in rink-core (bundled database: %s)' % ', '.join(
+            '%s=%s' % (o.get('id'), ((o.get('lookup') or {}).get('value'))) for o in obs)
+
+
+_c07_all = harnesses
+
+
+def harnesses(tier):   # noqa: F811
+    return _c07_all(tier) + [StaticDeterminism()]
